@@ -157,6 +157,18 @@ theorem bindStar_sim (t : Table) :
       exact ⟨i1, h2.trans i2⟩
     · exact ih hc
 
+theorem bindStarC_sim (cfg : Cfg) (c : Nat) {st : St} (hc : Coh st.p) :
+    (Py.bindStarC cfg (abs st) c).1 = abs (bindStarC cfg st c).1 ∧
+    (Py.bindStarC cfg (abs st) c).2 = (bindStarC cfg st c).2 ∧
+    Same st.p (bindStarC cfg st c).1.p := by
+  have hh : (abs st).h = st.h := rfl
+  simp only [Py.bindStarC, bindStarC, hh]
+  cases starNames cfg (st.h.tab c) with
+  | some l => exact bindFrom_sim c _ hc
+  | none =>
+    obtain ⟨h1, h2⟩ := bindStar_sim (st.h.tab c) hc
+    exact ⟨h1, rfl, h2⟩
+
 /-! ## the context switch -/
 
 theorem coh_enterCall {p : Ptrs} (hc : Coh p) (c : Nat) (l : Table) (gl : List String) : Coh (enterCall p c l gl) := by
@@ -288,6 +300,7 @@ theorem Py.callFn_env (W : World) (n : Nat) (h : Heap) (e e2 : Env) (fv : Val) (
         | some l => simp
     | none => simp [Py.callFn]
     | int k => simp [Py.callFn]
+    | names l => simp [Py.callFn]
     | mod k => simp [Py.callFn]
 
 theorem simAll_zero (W : World) : SimAll W 0 := by
@@ -329,6 +342,7 @@ theorem sim_call_step (W : World) (hW : W.NoSet) (n : Nat) (ih : SimAll W n) :
         · exact hleave
   | none => simp only [callFn, Py.callFn]; exact ⟨rfl, rfl, rfl⟩
   | int k => simp only [callFn, Py.callFn]; exact ⟨rfl, rfl, rfl⟩
+  | names l => simp only [callFn, Py.callFn]; exact ⟨rfl, rfl, rfl⟩
   | mod k => simp only [callFn, Py.callFn]; exact ⟨rfl, rfl, rfl⟩
 
 theorem sim_import_step (W : World) (hW : W.NoSet) (n : Nat) (ih : SimAll W n) :
@@ -414,6 +428,7 @@ theorem sim_stmt_step (W : World) (n : Nat) (ih : SimAll W n) :
         | mod c => exact ⟨rfl, rfl, Same.refl _⟩
         | none => exact ⟨rfl, rfl, Same.refl _⟩
         | int k => exact ⟨rfl, rfl, Same.refl _⟩
+        | names l => exact ⟨rfl, rfl, Same.refl _⟩
         | fn c f => exact ⟨rfl, rfl, Same.refl _⟩
   | call x f args =>
     simp only [execStmt, Py.execStmt, abs_evalAtom hc, abs_evalAtoms hc]
@@ -459,6 +474,10 @@ theorem sim_stmt_step (W : World) (n : Nat) (ih : SimAll W n) :
           simp only at hh he
           subst hh he
           rfl
+  | setAll l =>
+    simp only [execStmt, Py.execStmt]
+    obtain ⟨h1, h2⟩ := assignVar_sim hc "__all__" (.names l)
+    exact ⟨h1, rfl, h2⟩
   | defn x fid =>
     simp only [execStmt, Py.execStmt]
     obtain ⟨h1, h2⟩ := assignVar_sim hc x (.fn st.p.gctx fid)
@@ -547,10 +566,19 @@ theorem sim_stmt_step (W : World) (n : Nat) (ih : SimAll W n) :
       | none => exact ⟨rfl, rfl, Same.of_ptrs_eq c3⟩
       | some c =>
         have hc' : Coh (importMod W n st m lvl).st.p := by rw [c3]; exact hc
-        have hh : (abs (importMod W n st m lvl).st).h = (importMod W n st m lvl).st.h := rfl
-        obtain ⟨h1, h2⟩ := bindStar_sim ((importMod W n st m lvl).st.h.tab c) hc'
-        simp only [hh]
-        exact ⟨h1, rfl, (Same.of_ptrs_eq c3).trans h2⟩
+        obtain ⟨h1, h2, h3⟩ := bindStarC_sim W.cfg c hc'
+        simp only
+        cases hp : Py.bindStarC W.cfg (abs (importMod W n st m lvl).st) c with
+        | mk s' o' =>
+          cases hq : bindStarC W.cfg (importMod W n st m lvl).st c with
+          | mk st' o'' =>
+            rw [hp, hq] at h1 h2
+            rw [hq] at h3
+            simp only at h1 h2 h3
+            subst h1 h2
+            cases o' with
+            | none => exact ⟨rfl, rfl, (Same.of_ptrs_eq c3).trans h3⟩
+            | some e => exact ⟨rfl, rfl, (Same.of_ptrs_eq c3).trans h3⟩
   | setctx nm => simp [noSetS] at hs
 
 theorem simAll (W : World) (hW : W.NoSet) : ∀ n, SimAll W n := by
@@ -702,6 +730,7 @@ theorem getAttr_swap {B : Nat} {h : Heap} (t' : Table) {v : Val} (hv : mentions 
     simp only [getAttr, tab_setTab_ne t' hc]
   | none => rfl
   | int k => rfl
+  | names l => rfl
   | fn c f => rfl
 
 theorem getAttr_free {B : Nat} {h : Heap} (hf : HFree B h) {v w : Val} (hv : mentions v B = false) {a : String}
@@ -715,6 +744,7 @@ theorem getAttr_free {B : Nat} {h : Heap} (hf : HFree B h) {v w : Val} (hv : men
     | some u => rw [ht] at hg; injection hg with hg; subst hg; exact (hf.tabs c hc).get_ ht
   | none => cases hg
   | int k => cases hg
+  | names l => cases hg
   | fn c f => cases hg
 
 theorem swap_evalAtom {B : Nat} {s : PSt} (hs : SFree B s) (t' : Table) (a : Atom) :
@@ -857,6 +887,17 @@ theorem bindStar_frame {B : Nat} (t : Table) (ht : TFree B t) :
       exact i2 t'
     · exact ih hr hs
 
+theorem bindStarC_frame (cfg : Cfg) {B : Nat} {c : Nat} (hc : c ≠ B) {s : PSt} (hs : SFree B s) :
+    SFree B (Py.bindStarC cfg s c).1 ∧
+    ∀ t', Py.bindStarC cfg (swap B t' s) c = (swap B t' (Py.bindStarC cfg s c).1, (Py.bindStarC cfg s c).2) := by
+  have hh : ∀ t', (swap B t' s).h.tab c = s.h.tab c := fun t' => tab_setTab_ne t' hc
+  simp only [Py.bindStarC, hh]
+  cases starNames cfg (s.h.tab c) with
+  | some l => exact bindFrom_frame hc _ hs
+  | none =>
+    obtain ⟨a1, a2⟩ := bindStar_frame (s.h.tab c) (hs.h.tabs c hc) hs
+    exact ⟨a1, fun t' => by rw [a2 t']⟩
+
 /-! ### import resolution looks at context names and the registry only -/
 
 theorem findLoaded_setTab (h : Heap) (B : Nat) (t' : Table) (cds : List Cand) :
@@ -875,7 +916,7 @@ theorem importLookup_setTab (W : World) (h : Heap) (B : Nat) (t' : Table) (g : N
   unfold importLookup
   have h1 : selfCtx (h.setTab B t') g = selfCtx h g := rfl
   rw [h1]
-  cases candidates (selfCtx h g) m lvl with
+  cases candidates W.cfg (selfCtx h g) m lvl with
   | error e => rfl
   | ok cds => simp only [findLoaded_setTab]
 
@@ -1080,6 +1121,7 @@ theorem frame_call_step (W : World) (B n : Nat) (ih : FrameAll W B n) :
           rw [this]
   | none => simp only [Py.callFn]; exact ⟨hs, trivial, fun _ => rfl⟩
   | int k => simp only [Py.callFn]; exact ⟨hs, trivial, fun _ => rfl⟩
+  | names l => simp only [Py.callFn]; exact ⟨hs, trivial, fun _ => rfl⟩
   | mod k => simp only [Py.callFn]; exact ⟨hs, trivial, fun _ => rfl⟩
 
 theorem frame_import_step (W : World) (B n : Nat) (ih : FrameAll W B n) :
@@ -1186,6 +1228,7 @@ theorem frame_stmt_step (W : World) (B n : Nat) (ih : FrameAll W B n) :
           simp only [swap, setKey_swap t' hc]
         | none => refine ⟨hs, trivial, ?_⟩; intro t'; simp only [swap_evalAtom hs, swap_lookupVar hs, hv, hm]
         | int k => refine ⟨hs, trivial, ?_⟩; intro t'; simp only [swap_evalAtom hs, swap_lookupVar hs, hv, hm]
+        | names l => refine ⟨hs, trivial, ?_⟩; intro t'; simp only [swap_evalAtom hs, swap_lookupVar hs, hv, hm]
         | fn c f => refine ⟨hs, trivial, ?_⟩; intro t'; simp only [swap_evalAtom hs, swap_lookupVar hs, hv, hm]
   | call x f args =>
     simp only [Py.execStmt]
@@ -1220,6 +1263,12 @@ theorem frame_stmt_step (W : World) (B n : Nat) (ih : FrameAll W B n) :
         have h1 := ihC s fv vs hs (evalAtom_free hs hf) (evalAtoms_free hs ha)
         refine ⟨h1.free, trivial, ?_⟩; intro t'
         simp only [swap_evalAtom hs, swap_evalAtoms hs, hf, ha, h1.comm t']
+  | setAll l =>
+    simp only [Py.execStmt]
+    have hfree : mentions (Val.names l) B = false := rfl
+    obtain ⟨h1, h2⟩ := assignVar_frame hs "__all__" hfree
+    refine ⟨h1, trivial, ?_⟩; intro t'
+    simp only [h2 t']
   | defn x fid =>
     simp only [Py.execStmt]
     have hfree : mentions (Val.fn s.env.g fid) B = false := by simpa [mentions] using hs.g
@@ -1307,12 +1356,15 @@ theorem frame_stmt_step (W : World) (B n : Nat) (ih : FrameAll W B n) :
       | none => refine ⟨h1.free, trivial, ?_⟩; intro t'; simp only [h1.comm t', hv]
       | some c =>
         have hc : c ≠ B := by have := h1.val; rw [hv] at this; exact this
-        obtain ⟨a1, a2⟩ := bindStar_frame ((Py.importMod W n s m lvl).s.h.tab c) (h1.free.h.tabs c hc) h1.free
-        refine ⟨a1, trivial, ?_⟩; intro t'
-        simp only [h1.comm t', hv]
-        have : (swap B t' (Py.importMod W n s m lvl).s).h.tab c = (Py.importMod W n s m lvl).s.h.tab c :=
-          tab_setTab_ne t' hc
-        rw [this, a2 t']
+        obtain ⟨a1, a2⟩ := bindStarC_frame W.cfg hc h1.free
+        simp only
+        cases hb : Py.bindStarC W.cfg (Py.importMod W n s m lvl).s c with
+        | mk s' o' =>
+          rw [hb] at a1 a2
+          simp only at a1 a2
+          cases o' with
+          | none => refine ⟨a1, trivial, ?_⟩; intro t'; simp only [h1.comm t', hv, a2 t']
+          | some e => refine ⟨a1, trivial, ?_⟩; intro t'; simp only [h1.comm t', hv, a2 t']
   | setctx nm => simp only [Py.execStmt]; exact ⟨hs, trivial, fun _ => rfl⟩
 
 theorem frameAll (W : World) (B : Nat) : ∀ n, FrameAll W B n := by
@@ -1373,8 +1425,14 @@ theorem tabOnly_bindStar (t : Table) : ∀ st : St, TabOnly st.h (bindStar st t)
     obtain ⟨k, v⟩ := kv
     simp only [bindStar]
     split
-    · exact (tabOnly_writeSym st k v).trans (ih _)
+    · exact (tabOnly_writeSym st _ v).trans (ih _)
     · exact ih _
+
+theorem tabOnly_bindStarC (cfg : Cfg) (c : Nat) (st : St) : TabOnly st.h (bindStarC cfg st c).1.h := by
+  simp only [bindStarC]
+  cases starNames cfg (st.h.tab c) with
+  | some l => exact tabOnly_bindFrom c _ st
+  | none => exact tabOnly_bindStar _ st
 
 structure Keeps (k : Name) (i : Nat) (h h' : Heap) : Prop where
   reg : Reg k i h'
@@ -1567,6 +1625,7 @@ theorem sing_call_step (W : World) (k : Name) (i n : Nat) (ih : SingAll W k i n)
       | some l => exact ihB { st with p := enterCall st.p c l fd.globals } fd.body hr
   | none => simp only [callFn]; exact Keeps.refl hr
   | int j => simp only [callFn]; exact Keeps.refl hr
+  | names l => simp only [callFn]; exact Keeps.refl hr
   | mod j => simp only [callFn]; exact Keeps.refl hr
 
 theorem sing_import_step (W : World) (k : Name) (i n : Nat) (ih : SingAll W k i n) :
@@ -1624,6 +1683,7 @@ theorem sing_stmt_step (W : World) (k : Name) (i n : Nat) (ih : SingAll W k i n)
         | mod c => exact Keeps.of_tabOnly hr (tabOnly_setKey _ _ _ _)
         | none => exact Keeps.refl hr
         | int j => exact Keeps.refl hr
+        | names l => exact Keeps.refl hr
         | fn c f => exact Keeps.refl hr
   | call x f args =>
     simp only [execStmt]
@@ -1649,6 +1709,7 @@ theorem sing_stmt_step (W : World) (k : Name) (i n : Nat) (ih : SingAll W k i n)
       | error e => exact Keeps.refl hr
       | ok vs => exact ihC { st with p := fresh _ } fv vs hr
   | defn x fid => simp only [execStmt]; exact Keeps.of_tabOnly hr (tabOnly_assignVar st x _)
+  | setAll l => simp only [execStmt]; exact Keeps.of_tabOnly hr (tabOnly_assignVar st _ _)
   | ret a =>
     simp only [execStmt]
     cases evalAtom st a with
@@ -1709,7 +1770,15 @@ theorem sing_stmt_step (W : World) (k : Name) (i n : Nat) (ih : SingAll W k i n)
     | ok o =>
       cases o with
       | none => exact h1
-      | some c => exact h1.trans (Keeps.of_tabOnly h1.reg (tabOnly_bindStar _ _))
+      | some c =>
+        simp only
+        have h2 := tabOnly_bindStarC W.cfg c (importMod W n st m lvl).st
+        cases hb : bindStarC W.cfg (importMod W n st m lvl).st c with
+        | mk st' o' =>
+          rw [hb] at h2
+          cases o' with
+          | none => exact h1.trans (Keeps.of_tabOnly h1.reg h2)
+          | some e => exact h1.trans (Keeps.of_tabOnly h1.reg h2)
   | setctx nm =>
     simp only [execStmt]
     cases regGet st.h.reg nm with
@@ -1925,8 +1994,14 @@ theorem same_bindStar (t : Table) : ∀ st : St, Same st.p (bindStar st t).p := 
     obtain ⟨k, v⟩ := kv
     simp only [bindStar]
     split
-    · exact (same_writeSym st k v).trans (ih _)
+    · exact (same_writeSym st _ v).trans (ih _)
     · exact ih _
+
+theorem same_bindStarC (cfg : Cfg) (c : Nat) (st : St) : Same st.p (bindStarC cfg st c).1.p := by
+  simp only [bindStarC]
+  cases starNames cfg (st.h.tab c) with
+  | some l => exact same_bindFrom c _ st
+  | none => exact same_bindStar _ st
 
 def RestAll (W : World) (n : Nat) : Prop :=
   (∀ st s, WF st.p → Rel st.h st.p (execStmt W n st s).st.h (execStmt W n st s).st.p) ∧
@@ -1986,6 +2061,7 @@ theorem rest_call_step (W : World) (n : Nat) (ih : RestAll W n) :
         · exact Or.inl ⟨hb.le, hcross hne⟩
   | none => simp only [callFn]; exact ⟨Or.inl ⟨Nat.le_refl _, by trivial⟩, fun _ => by trivial⟩
   | int j => simp only [callFn]; exact ⟨Or.inl ⟨Nat.le_refl _, by trivial⟩, fun _ => by trivial⟩
+  | names l => simp only [callFn]; exact ⟨Or.inl ⟨Nat.le_refl _, by trivial⟩, fun _ => by trivial⟩
   | mod j => simp only [callFn]; exact ⟨Or.inl ⟨Nat.le_refl _, by trivial⟩, fun _ => by trivial⟩
 
 theorem rest_import_step (W : World) (n : Nat) (ih : RestAll W n) :
@@ -2043,6 +2119,7 @@ theorem rest_stmt_step (W : World) (n : Nat) (ih : RestAll W n) :
         | mod c => exact Rel.of_tabOnly (tabOnly_setKey _ _ _ _) (Same.refl _)
         | none => exact Rel.refl _ _
         | int j => exact Rel.refl _ _
+        | names l => exact Rel.refl _ _
         | fn c f => exact Rel.refl _ _
   | call x f args =>
     simp only [execStmt]
@@ -2073,6 +2150,9 @@ theorem rest_stmt_step (W : World) (n : Nat) (ih : RestAll W n) :
   | defn x fid =>
     simp only [execStmt]
     exact Rel.of_tabOnly (tabOnly_assignVar st x _) (same_assignVar st x _)
+  | setAll l =>
+    simp only [execStmt]
+    exact Rel.of_tabOnly (tabOnly_assignVar st _ _) (same_assignVar st _ _)
   | ret a =>
     simp only [execStmt]
     cases evalAtom st a with
@@ -2142,7 +2222,16 @@ theorem rest_stmt_step (W : World) (n : Nat) (ih : RestAll W n) :
     | ok o =>
       cases o with
       | none => exact h1
-      | some c => exact Rel.trans hw h1 (Rel.of_tabOnly (tabOnly_bindStar _ _) (same_bindStar _ _))
+      | some c =>
+        simp only
+        have h2 := tabOnly_bindStarC W.cfg c (importMod W n st m lvl).st
+        have h3 := same_bindStarC W.cfg c (importMod W n st m lvl).st
+        cases hb : bindStarC W.cfg (importMod W n st m lvl).st c with
+        | mk st' o' =>
+          rw [hb] at h2 h3
+          cases o' with
+          | none => exact Rel.trans hw h1 (Rel.of_tabOnly h2 h3)
+          | some e => exact Rel.trans hw h1 (Rel.of_tabOnly h2 h3)
   | setctx nm =>
     simp only [execStmt]
     cases regGet st.h.reg nm with
